@@ -35,6 +35,14 @@ func (n *VerifNode) Deliver(msg *interfaces.ConsensusRawMessage) {
 	parsedMessage := interfaces.ToConsensusMessage(msg)
 	n.logger.Debug("LHFLOW LHMSG WORKERLOOP RECEIVED %v from %v for H=%d V=%d", parsedMessage.MessageType(), parsedMessage.SenderMemberId(), parsedMessage.BlockHeight(), parsedMessage.View())
 	n.W.filter.HandleConsensusRawMessage(msg)
+	n.startNextRounds()
+}
+
+// startNextRounds = the top of the worker loop: a round that follows a commit is started once the committing handler
+// has returned (repeatedly: the new round may itself commit).
+func (n *VerifNode) startNextRounds() {
+	for n.W.startNextRoundIfCommitted() {
+	}
 }
 
 // MainGc = first statement of every main loop iteration.
@@ -61,6 +69,7 @@ func (n *VerifNode) Sync(block interfaces.Block, prevBlockProofBytes []byte) boo
 	}
 	*n.maxBlockHeightBySync = receivedBlockHeight
 	n.W.handleUpdateState(&blockWithProof{block: block, prevBlockProofBytes: prevBlockProofBytes})
+	n.startNextRounds()
 	return true
 }
 
@@ -77,6 +86,7 @@ func (n *VerifNode) Election(h primitives.BlockHeight, v primitives.View, moveTo
 		return false
 	}
 	moveToNextLeader()
+	n.startNextRounds()
 	return true
 }
 
